@@ -36,11 +36,21 @@ var c08Faults = []c08Fault{
 	{"$nope", "undefined-variable", false}, {"[$nope]", "undefined-variable", false}, {"map(&$nope, `[1]`)", "undefined-variable", false}, {"[let $v = `1` in $v, $v][1]", "undefined-variable", false},
 	{"`1` / `0`", "not-a-number", false}, {"`1` % `0`", "not-a-number", false}, {"`1` // `0`", "not-a-number", false}, {"`1e6144` * `1e6144`", "not-a-number", false}, {"`-1e6144` - `9e6144` - `9e6144`", "not-a-number", false},
 	{"to_string(chan)", "evaluation-failed", false},
+	// an invalid argument must be reported whether or not the other arguments make the call a no-op
+	{"replace('abc', 'zz', '-', `-1`)", "invalid-value", false}, {"replace('abc', 'zz', '-', `1.5`)", "invalid-value", false}, {"replace('', 'zz', '-', `-1`)", "invalid-value", false}, {"replace('abc', 'zz', '-', 'x')", "invalid-type", false},
+	{"split('abc', 'zz', `-1`)", "invalid-value", false}, {"split('', ',', `-1`)", "invalid-value", false}, {"split('abc', 'zz', `0.5`)", "invalid-value", false}, {"pad_left('abcdef', `2`, 'xy')", "invalid-value", false},
+	{"pad_right('abcdef', `-1`)", "invalid-value", false}, {"pad_left('abcdef', `2`, '')", "invalid-value", false}, {"find_first('abc', 'zz', `0.5`)", "invalid-value", false}, {"find_last('', 'zz', `0`, `0.5`)", "invalid-value", false},
+	{"find_first('abc', '', `0.5`)", "invalid-value", false}, {"join(',', `[]`) && join(`1`, `[]`)", "invalid-type", false}, {"contains('abc', `1`)", "invalid-type", false}, {"starts_with('', `1`)", "invalid-type", false},
+	{"sort_by(`[]`, &abs('x'))", "", false}, {"map(&abs('x'), `[]`)", "", false}, {"max_by(`[{\"a\":1}]`, &abs('x'))", "invalid-type", false}, {"sum(`[]`) + abs('x')", "invalid-type", false},
 }
 
 // syntax faults are whole strings (they cannot be embedded as a sub-expression without staying malformed)
 var c08Syntax = []string{"a[", "a.", "'unterminated", "a b", "a ||", "[a,", "{a: }", "a[?b", "abs(a", "a | | b", ")", "a.[", "`{`", "\"\\x\"", "a[1 2]", "&a", "a.1", "#", "a\xff", "let $x = in a", "let x = a in b", "a[*", "a.b.", "@@", "a[0]]",
-	"in", "let", " in ", "a\u00a0", "\u000ba", "a\u3000", "\u0085a", "\fa", "a.in", "in.a", "{let: a}", "{a: in}"}
+	"in", "let", " in ", "a\u00a0", "\u000ba", "a\u3000", "\u0085a", "\fa", "a.in", "in.a", "{let: a}", "{a: in}",
+	// JSON literals whose well-formed value is followed by a stray closer or more text
+	"`[1, 2]]`", "`{\"a\": 1}}`", "`1]`", "`\"a\"}`", "`true]`", "`null }`", "`[1] [2]`", "`1 2`", "`[1],`", "`{}]`", "`[]}`", "`1}`", "`\"a\" ]`",
+	// a trailing comma in argument lists, multi-selects and hashes
+	"merge(a,)", "not_null(a, b,)", "zip(a,)", "abs(a,)", "join(a, b,)", "[a,]", "{a: b,}", "merge(,a)", "merge(a,,b)", "sort_by(a, &b,)"}
 
 type c08Carrier struct {
 	Name      string
